@@ -63,7 +63,7 @@ func verifSharedStats(nsNames []string) (*StatisticManager, error) {
 
 // VerifTwCap is the queue size of the per-world inert session-timeout wheel: every client
 // command enqueues one Add, every ended session one Remove.
-const VerifTwCap = 512
+const VerifTwCap = 128
 
 // VerifWorld is a Manager + Server shell around one namespace, without listeners, admin
 // server, health checks or timers.
